@@ -47,6 +47,8 @@ package wtxmgr
 //@   requires nonnil: txHash != nil
 //@   fresh k
 //@   ensures key: len(k) == 36 && bytes(k) == K_op(old(deref(txHash)), index)
+//@   ensures go_memory: !dbmem(k.base)
+// added for C01 C02
 //@   ensures frame: forall o Int :: {select(@M(uint8), o)} oldalloc(o) ==> select(@M(uint8), o) == select(old(@M(uint8)), o)
 
 //@ func serializeLockedOutput(id, expiry) (v)
@@ -93,6 +95,12 @@ package wtxmgr
 //@   requires wf: ns != nil && select(DBlive, B_U(ns))
 //@   ensures nil_iff_absent: (credKey == nil) == !(len(k) >= 36 && HAS(B_U(ns), old(bytes(k))) && blen(VAL(B_U(ns), old(bytes(k)))) >= 36)
 //@   ensures db_unchanged: DB_UNCHANGED()
+//@   ensures credkey: credKey != nil ==> len(credKey) == 72 && bytes(credKey) == CKEY(old(bytes(k)), VAL(B_U(ns), old(bytes(k))))
+// added for C01
+//@   reveal CKEY
+// added for C01
+//@   ensures frame: forall o Int :: {select(@M(uint8), o)} oldalloc(o) ==> select(@M(uint8), o) == select(old(@M(uint8)), o)
+// added for C01
 
 //@ func isKnownOutput(ns, op) (r)
 //@   property C12
@@ -206,17 +214,109 @@ package wtxmgr
 //@   property C10
 //@   requires mi_wf: INV_MI(ns)
 //@ func (*Store).rollback(s, ns, height) (err)
-//@   property C10
+//@   property C10 C01 C02
+// (the byte-memory frame of the template never discharged for rollback — eight
+//  loops that append to Go slices — and its time-outs starve the obligations
+//  that matter; it is not claimed for this function)
+//@   opt noauto bytes_frame bytes_frame_inv
 //@   requires mi_wf: INV_MI(ns)
+//@   requires c_wf: INV_C_LEN(ns)
+// added for C01 C02
+// ---- added for C01 C02 (begin) ----
+// the representation invariants travel through every loop
+//@   invariant 1 c_wf: INV_C_LEN(ns)
+//@   invariant 1 mi_wf: INV_MI2(ns)
+//@   invariant 2 c_wf: INV_C_LEN(ns)
+//@   invariant 2 mi_wf: INV_MI2(ns)
+//@   invariant 3 c_wf: INV_C_LEN(ns)
+//@   invariant 3 mi_wf: INV_MI2(ns)
+//@   invariant 6 mi_wf: INV_MI2(ns)
+//@   invariant 7 mi_wf: INV_MI2(ns)
+//@   invariant 8 mi_wf: INV_MI2(ns)
+// sweep of the recorded coinbase outpoints (loops 7 / 8): every unconfirmed spender read from the list of a
+// recorded outpoint is removed (removeConflict), nothing but unconfirmed data is touched
+//@   invariant 8 spenders_gone: forall t Int :: {unminedSpendTxHashKeys[t]} 0 <= t && t <= rangeindex ==> !HAS(B_M(ns), bytes(unminedSpendTxHashKeys[t]))
+//@   invariant 8 m_shrinks_le: forall h Bytes :: {select(select(DBhas, B_M(ns)), h)} HAS(B_M(ns), h) ==> HAS_LE(B_M(ns), h)
+//@   invariant 8 idx: 0 <= rangeindex + 1 && rangeindex + 1 <= len(unminedSpendTxHashKeys)
+// coinbase branch (loop 3): every credit record of rec in this block is deleted (its outpoint leaves the
+// unspent index), every credit record deleted here is recorded - under its own outpoint (rec.Hash, output
+// index) - for the later sweep of unconfirmed spenders, and nothing else is recorded
+//@   invariant 3 idx: 0 <= rangeindex + 1 && rangeindex + 1 <= len(rec.MsgTx.TxOut)
+//@   invariant 3 kept: rec.Hash == loopentry(rec.Hash) && rec.MsgTx.TxOut == loopentry(rec.MsgTx.TxOut) && it.elem.Block == loopentry(it.elem.Block) && op.Hash == rec.Hash
+//@       && len(coinBaseCredits) >= loopentry(len(coinBaseCredits))
+//@   invariant 3 c_shrinks: DBlive == loopentry(DBlive) && (forall ck Bytes :: {select(select(DBhas, B_C(ns)), ck)} HAS(B_C(ns), ck) ==> HAS_LE(B_C(ns), ck))
+//@   invariant 3 u_shrinks: forall K Bytes :: {select(select(DBhas, B_U(ns)), K)} HAS(B_U(ns), K) ==> HAS_LE(B_U(ns), K) && VAL(B_U(ns), K) == VAL_LE(B_U(ns), K)
+//@   invariant 3 credits_deleted: forall j Int :: {K_cr(rec.Hash, j, it.elem.Block.Hash, it.elem.Block.Height)} 0 <= j && j <= rangeindex ==>
+//@       !HAS(B_C(ns), K_cr(rec.Hash, j, it.elem.Block.Hash, it.elem.Block.Height))
+//@   invariant 3 unspent_deleted: forall j Int :: {K_op(rec.Hash, j)} 0 <= j && j <= rangeindex && HAS_LE(B_C(ns), K_cr(rec.Hash, j, it.elem.Block.Hash, it.elem.Block.Height)) ==> !IN_U(ns, K_op(rec.Hash, j))
+//@   invariant 3 deleted_recorded: forall ck Bytes :: {select(select(DBhas, B_C(ns)), ck)} HAS_LE(B_C(ns), ck) && !HAS(B_C(ns), ck) ==>
+//@       (exists t Int :: {at(t)} at(t) && loopentry(len(coinBaseCredits)) <= t && t < len(coinBaseCredits)
+//@           && ck == K_cr(coinBaseCredits[t].Hash, coinBaseCredits[t].Index, it.elem.Block.Hash, it.elem.Block.Height))
+//@   invariant 3 recorded_sound: forall t Int :: {coinBaseCredits[t]} loopentry(len(coinBaseCredits)) <= t && t < len(coinBaseCredits) ==>
+//@       coinBaseCredits[t].Hash == rec.Hash && 0 <= coinBaseCredits[t].Index && coinBaseCredits[t].Index <= rangeindex
+//@       && HAS_LE(B_C(ns), K_cr(rec.Hash, coinBaseCredits[t].Index, it.elem.Block.Hash, it.elem.Block.Height))
+//@   invariant 3 mark: at(len(coinBaseCredits))
+// non-coinbase branch, inputs (loop 4): every input gets an unmined-input entry; no debit record of rec in
+// this block remains; the credit a removed debit named - if it still exists with a non-zero amount - is
+// unspent again and its outpoint is back in the unspent index
+//@   invariant 4 idx: 0 <= rangeindex + 1 && rangeindex + 1 <= len(rec.MsgTx.TxIn)
+//@   invariant 4 kept: rec.Hash == loopentry(rec.Hash) && rec.MsgTx.TxIn == loopentry(rec.MsgTx.TxIn) && rec.MsgTx.TxOut == loopentry(rec.MsgTx.TxOut) && it.elem.Block == loopentry(it.elem.Block)
+//@   invariant 4 keys_kept: forall j Int :: {at(j)} at(j) && 0 <= j && j < len(rec.MsgTx.TxIn) ==> PREVKEY(rec.MsgTx.TxIn[j]) == PKE(rec, j)
+//@   invariant 4 mark: at(rangeindex + 1)
+//@   invariant 4 live_kept: DBlive == loopentry(DBlive)
+//@   invariant 4 c_wf: INV_C_LEN(ns)
+//@   invariant 4 mi_wf: INV_MI2(ns)
+//@   invariant 4 inputs_marked: forall j Int :: {at(j)} at(j) && 0 <= j && j <= rangeindex ==> HAS(B_MI(ns), PKE(rec, j))
+//@   invariant 4 debits_gone: forall j Int :: {at(j)} at(j) && 0 <= j && j <= rangeindex ==> !HAS(B_D(ns), RB_KDE(rec, it, j))
+//@   invariant 4 d_only_ours: select(DBval, B_D(ns)) == loopentry(select(DBval, B_D(ns))) && (forall K Bytes :: {select(select(DBhas, B_D(ns)), K)} (HAS(B_D(ns), K) ==> HAS_LE(B_D(ns), K))
+//@       && (HAS_LE(B_D(ns), K) && !HAS(B_D(ns), K) ==> (exists x Int :: {at(x)} at(x) && 0 <= x && x <= rangeindex && K == RB_KDE(rec, it, x))))
+//@   invariant 4 c_kept: select(DBhas, B_C(ns)) == loopentry(select(DBhas, B_C(ns))) && (forall ck Bytes :: {AMT_TRIG(VAL(B_C(ns), ck))} amtOf(VAL(B_C(ns), ck)) == amtOf(VAL_LE(B_C(ns), ck)))
+//@   invariant 4 u_grows: forall K Bytes :: {select(select(DBhas, B_U(ns)), K)} HAS_LE(B_U(ns), K) ==> HAS(B_U(ns), K)
+//@   invariant 4 restored: forall j Int :: {at(j)} at(j) && 0 <= j && j <= rangeindex && HAS_LE(B_D(ns), RB_KDE(rec, it, j)) && blen(VAL_LE(B_D(ns), RB_KDE(rec, it, j))) >= 80
+//@       && HAS(B_C(ns), RB_CK(ns, rec, it, j)) && amtOf(VAL(B_C(ns), RB_CK(ns, rec, it, j))) != 0 ==>
+//@       !SPENT_FLAG(VAL(B_C(ns), RB_CK(ns, rec, it, j))) && blen(VAL(B_C(ns), RB_CK(ns, rec, it, j))) == 9 && IN_U(ns, PKE(rec, j))
+// non-coinbase branch, outputs (loop 5): on entry every input is marked and no debit is left (an early exit
+// from loop 4 would leave some); every credit record of rec in this block becomes the unmined credit of the
+// same outpoint with the same amount and change flag, and leaves the credit bucket and the unspent index
+//@   invariant 5 idx: 0 <= rangeindex + 1 && rangeindex + 1 <= len(rec.MsgTx.TxOut)
+//@   invariant 5 kept: rec.Hash == loopentry(rec.Hash) && rec.MsgTx.TxIn == loopentry(rec.MsgTx.TxIn) && rec.MsgTx.TxOut == loopentry(rec.MsgTx.TxOut) && it.elem.Block == loopentry(it.elem.Block)
+//@   invariant 5 live_kept: DBlive == loopentry(DBlive)
+//@   invariant 5 c_wf: INV_C_LEN(ns)
+//@   invariant 5 mi_wf: INV_MI2(ns)
+//@   invariant 5 all_inputs_marked: forall j Int :: {at(j)} at(j) && 0 <= j && j < len(rec.MsgTx.TxIn) ==> HAS(B_MI(ns), PREVKEY(rec.MsgTx.TxIn[j]))
+//@   invariant 5 all_debits_gone: forall j Int :: {at(j)} at(j) && 0 <= j && j < len(rec.MsgTx.TxIn) ==> !HAS(B_D(ns), RB_KD(rec, it, j))
+//@   invariant 5 c_only_ours: select(DBval, B_C(ns)) == loopentry(select(DBval, B_C(ns))) && (forall ck Bytes :: {select(select(DBhas, B_C(ns)), ck)} (HAS(B_C(ns), ck) ==> HAS_LE(B_C(ns), ck))
+//@       && (HAS_LE(B_C(ns), ck) && !HAS(B_C(ns), ck) ==> (exists x Int :: {at(x)} at(x) && 0 <= x && x <= rangeindex && ck == RB_KDE(rec, it, x))))
+//@   invariant 5 mark: at(rangeindex + 1)
+//@   invariant 5 credits_moved: len(rec.MsgTx.TxOut) <= 4294967295 ==> (forall j Int :: {at(j)} at(j) && 0 <= j && j <= rangeindex && HAS_LE(B_C(ns), RB_KDE(rec, it, j)) ==>
+//@       mcIndex(K_op(loopentry(rec.Hash), j)) == j && HAS(B_MC(ns), K_op(loopentry(rec.Hash), j))
+//@       && VAL(B_MC(ns), K_op(loopentry(rec.Hash), j)) == V_cr(amtOf(VAL_LE(B_C(ns), RB_KDE(rec, it, j))), crChangeBit(VAL_LE(B_C(ns), RB_KDE(rec, it, j)))))
+//@   invariant 5 credits_left: forall j Int :: {at(j)} at(j) && 0 <= j && j <= rangeindex && HAS_LE(B_C(ns), RB_KDE(rec, it, j)) ==>
+//@       !HAS(B_C(ns), RB_KDE(rec, it, j)) && !IN_U(ns, K_op(loopentry(rec.Hash), j))
+// ---- added for C01 C02 (end) ----
 //@ func (*Store).Rollback(s, ns, height) (err)
 //@   property C10
 //@   requires mi_wf: INV_MI(ns)
+//@   requires c_wf: INV_C_LEN(ns)
+// added for C01 C02
 //@ func putTxRecord(ns, rec, block) (err)
 //@   property C10
 //@   requires args: block != nil
 //@ func deleteTxRecord(ns, txHash, block) (err)
 //@   property C10
 //@   requires args: txHash != nil && block != nil
+//@   ensures deleted: err == nil ==> DEL1(B_T(ns), K_tx(old(deref(txHash)), u32h(old(block.Height)), old(block.Hash)))
+// added for C02
+//@   ensures failure_changes_nothing: err != nil ==> DB_UNCHANGED()
+// added for C02
 //@ func putRawUnminedInput(ns, k, v) (err)
 //@   property C10
 //@   requires hash: len(v) == 32
+//@   ensures appended: err == nil ==> PUT1(B_MI(ns), old(bytes(k)), VAL(B_MI(ns), old(bytes(k))))
+//@       && VAL(B_MI(ns), old(bytes(k))) == (old(HAS(B_MI(ns), bytes(k))) ? bcat(old(VAL(B_MI(ns), bytes(k))), old(bytes(v))) : old(bytes(v)))
+// added for C01 C02
+//@   ensures failure_changes_nothing: err != nil ==> DB_UNCHANGED()
+// added for C01 C02
+// append may extend the database-owned list in place; memory of Go objects is untouched
+//@   ensures go_bytes_frame: forall o Int :: {select(@M(uint8), o)} oldalloc(o) && !dbmem(o) ==> select(@M(uint8), o) == select(old(@M(uint8)), o)
+// added for C01 C02
